@@ -255,7 +255,11 @@ static void aborts(const std::vector<Cls>& cls, long from, long count, bool also
                 uni::Part all{0, 1}; unsigned long long ctr = 0;
                 ProbeFn probe = [&](const Position& p, int& s) { return tt.probeDTM(p, 0, s); };
                 if (kind != 0) {
-                    if (r1) { snprintf(out->detail, sizeof out->detail, "fault did not abort generation"); }
+                    if (r1) {
+                        // the generator reports success although a stop / time-out was injected: whatever it installed must be the complete, exact table
+                        snprintf(out->detail, sizeof out->detail, "fault did not abort generation");
+                        ctr = 0; visitAll(c, 2, probe, true, all, ctr, false);
+                    }
                     else {
                         // ordinary hash traffic, then: no probe may succeed
                         for (U64 k = 1; k < 50000; k++) { Move m(Square((int)(k % 64)), Square((int)((k / 64) % 64)), 0); tt.insert(k * 0xD1342543DE82EF95ULL, m, TType::T_GE, 1, (int)(k % 20), (int)(k % 300)); }
@@ -288,8 +292,10 @@ static void aborts(const std::vector<Cls>& cls, long from, long count, bool also
             if (!ok) { R.violation("crash-after-aborted-generation", clsName(c) + " kind " + std::to_string(kind) + " at query " + std::to_string(at), rep); continue; }
             R.count("states", out->states); R.count("transitions", out->transitions);
             if (out->ret1) {
-                // the fault fired at a query that does not abort (e.g. a stop flag set after the last iteration test): generation completed, nothing to check
+                // the fault fired at a query that does not abort (e.g. a stop flag set after the last iteration test): generation reports success,
+                // so the table it installed has been checked for exactness like a complete one
                 R.count("faults_without_abort");
+                if (out->nViol) R.violation("inexact-table-published-after-fault:" + std::string(out->detail).substr(0, std::string(out->detail).find(" | ")), clsName(c) + " kind " + std::to_string(kind) + " at query " + std::to_string(at) + " : " + out->detail, rep);
                 continue;
             }
             R.count("aborted_generations"); R.count("nontrivial");
